@@ -446,7 +446,7 @@ type c10Stream struct{}
 func (c10Stream) Name() string               { return "c10" }
 func (c10Stream) CaseTimeout() time.Duration { return 60 * time.Second }
 func (c10Stream) Rule() string {
-	return "pipelines <pre requests> Unbind <post requests> written in ONE TCP segment (pre 0..8, post 0..8 of the six dispatched operations), with and without an unbind route (whose handler, in some cases, panics), earlier handlers blocked until released (30 ms, occasionally 2.5 s, after the unbind was read) or finishing at once, plain / TLS / StartTLS; oracle: the unbind handler runs exactly once iff registered, gldap sends no response to the unbind, no handler ever runs for a post request, the client gets exactly the pre responses and then EOF, and the socket is not closed while earlier handlers are still blocked; trace replayed through the connection automaton; non-trivial = post >= 1, distinct by scenario"
+	return "pipelines <pre requests> Unbind <post requests> written in ONE TCP segment (pre 0..8, post 0..8 of the six dispatched operations), with and without an unbind route (whose handler, in some cases, panics), earlier handlers blocked until released (30 ms, occasionally 2.5 s, after the unbind was read) or finishing at once, plain / TLS / StartTLS; in some scenarios the mux is shared with a second server on which a client unbinds first, in some Stop is called while a slow unbind handler is at work; oracle: the unbind handler runs exactly once iff registered, gldap sends no response to the unbind, no handler ever runs for a post request, the client gets exactly the pre responses and then EOF, and the socket is not closed while earlier handlers are still blocked; trace replayed through the connection automaton; non-trivial = post >= 1, distinct by scenario"
 }
 
 func (c10Stream) Generate(rng *rand.Rand, n int, thorough bool) []Case {
@@ -474,8 +474,18 @@ func (c10Stream) Generate(rng *rand.Rand, n int, thorough bool) []Case {
 		if route == 1 && upanic == 0 && rng.Intn(12) == 0 {
 			uhold = 2600 // an unbind handler that takes its time: the connection is closed when it has returned, not before
 		}
-		cs = append(cs, Case{Line: fmt.Sprintf("c10 pre=%d post=%d route=%d block=%d mode=%s seed=%d hold=%d upanic=%d uhold=%d uctl=%d", pre, rng.Intn(9), route, block,
-			[]string{"plain", "plain", "tls", "starttls"}[rng.Intn(4)], rng.Intn(1<<30), hold, upanic, uhold, uctl), Kind: "unbind"})
+		// the mux also routes for a second server of the same application (every fourth scenario with an unbind route): a
+		// client of THAT server unbinds first; Stop is called while a slow unbind handler is still running (every second
+		// scenario with such a handler)
+		shared, ustop := 0, 0
+		if route == 1 && rng.Intn(4) == 0 {
+			shared = 1
+		}
+		if uhold > 0 && block == 0 && rng.Intn(2) == 0 {
+			ustop = 1
+		}
+		cs = append(cs, Case{Line: fmt.Sprintf("c10 pre=%d post=%d route=%d block=%d mode=%s seed=%d hold=%d upanic=%d uhold=%d uctl=%d shared=%d ustop=%d", pre, rng.Intn(9), route, block,
+			[]string{"plain", "plain", "tls", "starttls"}[rng.Intn(4)], rng.Intn(1<<30), hold, upanic, uhold, uctl, shared, ustop), Kind: "unbind"})
 	}
 	return cs
 }
@@ -565,6 +575,7 @@ func (c10Stream) Impl(c Case) string {
 	released := make(chan struct{})
 	var unbinds int32
 	var unbindReturned int32
+	var warming, warmUnbinds int32
 	var umu sync.Mutex
 	h := func(w *gldap.ResponseWriter, r *gldap.Request) {
 		rc.enter(r)
@@ -577,6 +588,10 @@ func (c10Stream) Impl(c Case) string {
 	var uh gldap.HandlerFunc
 	if p["route"] == "1" {
 		uh = func(w *gldap.ResponseWriter, r *gldap.Request) {
+			if atomic.LoadInt32(&warming) == 1 {
+				atomic.AddInt32(&warmUnbinds, 1)
+				return
+			}
 			umu.Lock()
 			unbinds++
 			umu.Unlock()
@@ -589,8 +604,31 @@ func (c10Stream) Impl(c Case) string {
 			atomic.StoreInt32(&unbindReturned, 1)
 		}
 	}
-	var earlyClose int32
-	sut, err := startServer(allRoutes(h, startTLSHandler(srvTLS, 0, 0), uh), serverTLSFor(mode), func(int) {
+	var earlyClose, stopEarly int32
+	c10mux := allRoutes(h, startTLSHandler(srvTLS, 0, 0), uh)
+	if p["shared"] == "1" {
+		// one Mux, two servers (say ldap and ldaps of one application): a client of the other server connects and
+		// unbinds first - its connection has the same ConnectionID as the one judged below, on another Server
+		atomic.StoreInt32(&warming, 1)
+		other, err := startServer(c10mux, nil, nil)
+		if err != nil {
+			return "harness-error start: " + err.Error()
+		}
+		oc, err := connect(other.addr, "plain")
+		if err != nil {
+			return "harness-error connect: " + err.Error()
+		}
+		_ = oc.send(append(opFrame("bind", 1), Seq(Int(2, 2), P(1, 2, nil)).Ser()...))
+		_, _ = oc.readFrame(3 * time.Second)
+		other.tr.Wait("conn.gone", 1, -1, 5*time.Second)
+		oc.close()
+		other.finish()
+		if n := atomic.LoadInt32(&warmUnbinds); n != 1 {
+			return fmt.Sprintf("unbind handler ran %d times for the one Unbind on the other server of the shared mux, want 1", n)
+		}
+		atomic.StoreInt32(&warming, 0)
+	}
+	sut, err := startServer(c10mux, serverTLSFor(mode), func(int) {
 		if p["route"] == "1" && p["upanic"] != "1" && atomic.LoadInt32(&unbindReturned) == 0 {
 			atomic.StoreInt32(&earlyClose, 1)
 		}
@@ -643,6 +681,20 @@ func (c10Stream) Impl(c Case) string {
 		}
 	}
 	close(released)
+	stopRet := make(chan struct{})
+	if p["ustop"] == "1" && verdict == "ok" {
+		// Stop arrives while the unbind handler is still at work: it returns when that handler has returned and the
+		// connection has been closed and reported, not before
+		time.Sleep(100 * time.Millisecond)
+		go func() {
+			defer close(stopRet)
+			if sut.stop(15*time.Second) && atomic.LoadInt32(&unbindReturned) == 0 {
+				atomic.StoreInt32(&stopEarly, 1)
+			}
+		}()
+	} else {
+		close(stopRet)
+	}
 	got := 0
 	for verdict == "ok" {
 		f, err := cl.readFrame(10 * time.Second)
@@ -685,6 +737,10 @@ func (c10Stream) Impl(c Case) string {
 		verdict = "socket closed and OnClose called while the unbind handler is still running"
 	}
 	sut.tr.Wait("conn.gone", conn, -1, 5*time.Second)
+	<-stopRet
+	if verdict == "ok" && atomic.LoadInt32(&stopEarly) == 1 {
+		verdict = "Stop returned while the unbind handler of a connection was still running"
+	}
 	cl.close()
 	sut.finish()
 	return verdict + "\t" + traceString(sut.tr.Snapshot(), "conn.", "loop.", "req.", "run.", "stop.")
